@@ -176,8 +176,9 @@ def run_laws(inp):
     g = O.G(inp["seed"])
     kind, n, cx = inp["kind"], inp["n"], inp["cx"]
     X = O.mk(kind, g, inp["shape"], n, cx)
-    A = O.transformations(g, inp["tshape"], n, kind, cx)
-    B = O.transformations(g, inp["tshape"], n, kind, cx)
+    big = 0.3 if kind == "point" else 0.0          # G12 / G16: the law at large magnitudes, members of different kinds (points: well conditioned)
+    A = O.transformations(g, inp["tshape"], n, kind, cx, mixed=big, top=6.0)
+    B = O.transformations(g, inp["tshape"], n, kind, cx, mixed=big, top=6.0)
     bad = []
     # objects with a history: the laws must hold for a transformation (and an object) that has already been used (inverted, composed,
     # applied) and then updated in place through the public item assignment, not only for freshly built ones
